@@ -17,6 +17,12 @@ def main():
         spec = props.PROPS.get(pid)
         if not spec or not spec.get("ready"):
             continue
+        bad = [k for k in ("explanation", "bounds", "level_text", "level_note")
+               if not str(spec.get(k, "")).strip() or str(spec.get(k, "")).strip().lower() in ("wip", "draft", "placeholder")]
+        if bad:
+            print("NOT CLAIMED: %s is marked ready but has placeholder texts: %s" % (pid, bad))
+            spec["ready"] = False
+            continue
         checks.append({
             "property_id": pid,
             "quick_cmd": "./check %s --tier quick" % pid,
